@@ -13,13 +13,15 @@ from kappadata.wrappers.sample_wrappers.x_transform_wrapper import XTransformWra
 from kappadata.wrappers.sample_wrappers.kd_multi_view_wrapper import KDMultiViewWrapper
 from kappadata.wrappers.sample_wrappers.semseg_transform_wrapper import SemsegTransformWrapper
 from kappadata.wrappers.mode_wrapper import ModeWrapper
+from kappadata.wrappers.sample_wrappers.kd_mix_wrapper import KDMixWrapper
 
 TWB = importlib.import_module("kappadata.wrappers.sample_wrappers.base.transform_wrapper_base")
 MVW = importlib.import_module("kappadata.wrappers.sample_wrappers.kd_multi_view_wrapper")
 STW = importlib.import_module("kappadata.wrappers.sample_wrappers.semseg_transform_wrapper")
+KMW = importlib.import_module("kappadata.wrappers.sample_wrappers.kd_mix_wrapper")
 
 MANIFEST_LEVEL = "The seed plumbing of the real sample wrappers (TransformWrapperBase._getitem, XTransformWrapper, KDMultiViewWrapper, SemsegTransformWrapper) together with the real containers KDComposeTransform / KDRandomApply / KDScheduledTransform runs symbolically: np.random.default_rng(seed=s) is a stub whose k-th draw is the token (s, k), probe leaf transforms return the draws they consumed, a member that was not given the per-sample generator answers with a history-dependent token. Seed (unbounded), requested index and two different access histories on two independently built stacks are symbolic; the solver decides that the value for index i is the same under both histories, contains no history-dependent draw, and that different indices use different stream keys."
-MANIFEST_NOTE = "Trusted: CrossHair/z3; the default_rng stub (equal seeds give equal streams); 'any number of workers' is reduced to independence from access history and from global state, which is what makes the worker count irrelevant. Pixel kernels and the KDMixWrapper numerics are outside (KDMixWrapper is under C11)."
+MANIFEST_NOTE = "Trusted: CrossHair/z3; the default_rng stub (equal seeds give equal streams); 'any number of workers' is reduced to independence from access history and from global state, which is what makes the worker count irrelevant. Pixel kernels and the KDMixWrapper numerics are outside (C11); KDMixWrapper's seed plumbing (stream key = seed + index, also for seed 0) is inside via the 'mix' stack."
 MANIFEST_TECHNIQUE = "bounded symbolic execution of the real seed plumbing (CrossHair on z3) with an uninterpreted per-seed draw stream; relational check between two access histories"
 PROPERTY = "C08"
 ENCODED = [
@@ -32,13 +34,14 @@ ENCODED = [
     "kappadata.transforms.base.kd_stochastic_transform:KDStochasticTransform.set_rng",
     "kappadata.transforms.kd_random_apply:KDRandomApply.set_rng",
     "kappadata.transforms.base.kd_random_apply_base:KDRandomApplyBase.__call__",
+    "kappadata.wrappers.sample_wrappers.kd_mix_wrapper:KDMixWrapper.getitem_xclass",
 ]
 STUBS = ["FakeNp.random.default_rng(seed=s): StreamRng whose k-th draw is the token ('draw', s, k); random() of the stream is 0 (so random-apply containers always apply)",
          "ProbeT: leaf KDStochasticTransform returning (input, draw) and recording the draw in ctx; if its rng is not a StreamRng (not injected) the draw is ('uninjected', global call counter)",
          "Leaf dataset with getitem_x / getitem_semseg tokens; Forward KDWrapper"]
 ASSUMPTIONS = ["equal seeds give equal generator streams", "a generator created at construction time from the global RNG is history dependent (that is what the hook is there to replace)"]
-OUTSIDE = ["real worker processes", "pixel kernels", "numeric draws of KDMixWrapper (C11)", "the ready-made wrappers under common/ beyond their use of the same base classes"]
-BOUNDS = {"quick": "10 stack shapes (incl. a seeded transform wrapper above a wrapper with fused x+class loading); seed unbounded, dataset size n<=6, requested index and two histories of 2 preceding accesses each symbolic",
+OUTSIDE = ["real worker processes", "pixel kernels", "numeric draws of KDMixWrapper (C11; its stream key per index is checked here)", "the ready-made wrappers under common/ beyond their use of the same base classes"]
+BOUNDS = {"quick": "11 stack shapes (incl. a seeded transform wrapper above a wrapper with fused x+class loading, and the real KDMixWrapper over a leaf whose samples only record which indices were combined); seed unbounded, dataset size n<=6, requested index and two histories of 2 preceding accesses each symbolic",
           "thorough": "same stacks with histories of 3 preceding accesses, n<=8"}
 
 CALLS = [0]
@@ -61,10 +64,23 @@ class StreamRng:
         self.k += 1
         return 0
 
+    def beta(self, *a, **k):
+        self.k += 1
+        return 0.5
+
+
+KEYLOG = []
+
 
 class FakeRandom:
     @staticmethod
     def default_rng(seed=None):
+        # KEYLOG: stream keys in creation order (read by the 'mix' stack, whose draws never reach a probe transform)
+        if seed is None:
+            CALLS[0] += 1
+            KEYLOG.append(("uninjected", CALLS[0]))
+        else:
+            KEYLOG.append(("draw", seed, 1))
         return StreamRng(seed)
 
 
@@ -99,6 +115,40 @@ class Leaf(KDDataset):
         return ("semseg", idx)
 
 
+class FakeX:
+    """stands for a sample tensor in the 'mix' stack: arithmetic only records which samples were combined"""
+    shape = (1,)
+    ndim = 1
+
+    def __init__(self, tag):
+        self.tag = tag
+
+    def __mul__(self, other):
+        return FakeX(("mul", self.tag))
+
+    def __add__(self, other):
+        return FakeX(("add", self.tag, other.tag))
+
+    def __eq__(self, other):
+        return isinstance(other, FakeX) and self.tag == other.tag
+
+    def __ne__(self, other):
+        return not self.__eq__(other)
+
+    __hash__ = None
+
+
+class MixLeaf(Leaf):
+    def getitem_x(self, idx, ctx=None):
+        return FakeX(("x", idx))
+
+    def getitem_class(self, idx, ctx=None):
+        return 0
+
+    def getshape_class(self):
+        return (2,)
+
+
 class Forward(KDWrapper):
     pass
 
@@ -121,11 +171,13 @@ class FusedXC(KDWrapper):
 
 
 STACKS = ["x-over-fused", "x-single", "x-compose", "x-nested-compose", "x-under-forward", "x-over-forward", "multiview", "semseg",
-          "x-random-apply", "x-scheduled"]
+          "x-random-apply", "x-scheduled", "mix"]
 
 
 def build(stack, n, seed):
     ds = Leaf(n)
+    if stack == "mix":
+        return KDMixWrapper(MixLeaf(n), mixup_p=1.0, mixup_alpha=1.0, seed=seed), "x"
     if stack == "x-over-fused":
         return XTransformWrapper(FusedXC(ds), ProbeT(), seed=seed), "class x"
     if stack == "x-single":
@@ -185,19 +237,25 @@ def body_history(cfg, seed, n, i, j, a0, a1, a2, b0, b1, b2):
         if not (0 <= v < n):
             return True
     try:
-        with patched(TWB, np=FakeNp), patched(MVW, np=FakeNp), patched(STW, np=FakeNp):
+        with patched(TWB, np=FakeNp), patched(MVW, np=FakeNp), patched(STW, np=FakeNp), patched(KMW, np=FakeNp):
             CALLS[0] = 0
+
+            def get(m, idx):
+                # the mix wrapper consumes its draws itself: report the keys of the streams it created next to the value
+                del KEYLOG[:]
+                v = m[idx]
+                return (v, tuple(KEYLOG)) if stack == "mix" else v
             s1, mode = build(stack, n, seed)
             m1 = ModeWrapper(s1, mode=mode, return_ctx=True)
             for a in A:
                 m1[a]
-            r1 = m1[i]
+            r1 = get(m1, i)
             s2, _ = build(stack, n, seed)
             m2 = ModeWrapper(s2, mode=mode, return_ctx=True)
             for b in B:
                 m2[b]
-            r2 = m2[i]
-            rj = m2[j]
+            r2 = get(m2, i)
+            rj = get(m2, j)
     except Exception as e:
         return fail("exception " + type(e).__name__)
     if has_uninjected(r1) or has_uninjected(r2):
